@@ -167,7 +167,7 @@ def run(tier):
     spec = C08Spec()
 
     def post(report):
-        cov = tvp.run_scenarios(report, PROP, "c08b", _b_run_one, list(B_SCENARIOS), 1 if tier == "quick" else 2, 60 if tier == "quick" else 900, B_RULE)
+        cov = tvp.run_scenarios(report, PROP, "c08b", _b_run_one, list(B_SCENARIOS), 1 if tier == "quick" else 2, 240 if tier == "quick" else 900, B_RULE)
         report.coverage["threaded_flush"] = cov
         report.coverage["schedules"] = cov["schedules"]
         report.coverage.setdefault("caps_hit", []).extend(cov["caps_hit"])
